@@ -9,6 +9,7 @@ From WG Require Import BV.RefSel.
 From WG Require Import BV.Bits.
 From WG Require Import Par.Splice.
 From WG Require Import Flags.Props.
+From WG Require Import Transform.Pipelines.
 
 Extraction Language OCaml.
 
@@ -56,4 +57,19 @@ Extraction "model.ml"
   representable
   java_from_props
   version
+  run_xop
+  run_parts
+  xop_spec
+  xop_nout
+  ksort
+  ksortd
+  symmetrize_sorted_par
+  symmetrize_sorted_par_lenders
+  phi_transpose
+  transpose_labeled_spec
+  boundaries
+  wf_graph
+  wf_lgraph
+  below
+  graph_arcs
 .
